@@ -751,7 +751,7 @@ LINE_SETPOS = norm("""
 	double tmp; int len;
 	if (!src) { *val = 0; return 0; }
 	if ((len = src->_vptr->convert(src, 'f', val)) >= 0) { if (!len) *val = 0.0f; return 0; }
-	if ((len = src->_vptr->convert(src, 'd', &tmp)) >= 0) { if (!len) { *val = 0.0f; } else { *val = tmp; } return 0; }
+	if ((len = src->_vptr->convert(src, 'd', &tmp)) >= 0) { if (!len) { *val = 0.0f; } else if (tmp > FLT_MAX || tmp < -FLT_MAX) { return MPT_ERROR(BadValue); } else { *val = tmp; } return 0; }
 	return MPT_ERROR(BadType);
 """)
 AXIS_INTERVALS = norm("""
